@@ -310,7 +310,22 @@ fn pick_tol(rng: &mut Rng) -> Option<f64> {
         1 => Some(1e-12),
         2 => Some(1e-8),
         3 => Some(1e-6),
+        // a zero tolerance so small that its square underflows
+        4 => Some(*rng.pick(&[1e-170, 1e-200, 1e-300])),
         _ => None,
+    }
+}
+
+/// tolerance carried by the DIVISOR object (set after construction, nothing is purged): it has no
+/// bearing on the division, which works with the dividend's tolerance; values up to far above the
+/// divisor's leading coefficient
+fn pick_divisor_tol(rng: &mut Rng) -> Option<f64> {
+    if rng.chance(0.75) {
+        None
+    } else if rng.bool() {
+        pick_tol(rng)
+    } else {
+        Some(*rng.pick(&[0.5, 1.0, 10.0, 1e3, 1e6]))
     }
 }
 
@@ -355,7 +370,7 @@ fn growth(d: &[C64], qdeg: usize) -> f64 {
 
 fn gen_case(rng: &mut Rng, complex: bool, kind: Kind) -> DivCase {
     let tol_a = pick_tol(rng);
-    let tol_d = if rng.chance(0.8) { None } else { pick_tol(rng) };
+    let tol_d = pick_divisor_tol(rng);
     let from_slice = rng.bool();
     let zero = C64::new(0.0, 0.0);
     match kind {
